@@ -157,6 +157,16 @@ def total_monotone(ctx, fi):
         any(pol and isinstance(t, ast.BoolOp) and isinstance(t.op, ast.Or) and any(U.is_gt_guard((p_, True), vtxt, ttxt) for p_ in t.values) for (t, pol) in tests)
     viamax = isinstance(st.value, ast.Call) and dotted(st.value.func) == 'max' and any(norm_text(a) == ttxt for a in st.value.args)
     ok = guarded or viamax or not loops
+    # the value itself: `max(notes, key=K).end` is the largest end only if K orders by end first
+    from sa import grouping
+    for a in ast.walk(U.expand_locals(fn, st.value, at=st)):
+      if isinstance(a, ast.Attribute) and a.attr == 'end' and isinstance(a.value, ast.Call) and dotted(a.value.func) == 'max':
+        kf = grouping.key_fields(next((k.value for k in a.value.keywords if k.arg == 'key'), None), fn)
+        if kf is not None:
+          okk = kf[0] == 'end'
+          ctx.ob('PAIR/total-is-max-end', fi, st, okk, 'the note chosen by max(...) is one with the largest end' if okk else
+                 'total_time takes the end of the note that is largest by %s: a note that starts earlier but is released later ends after total_time' % (tuple(kf),),
+                 construct='total_time from max(notes, key=...).end', definite=True)
     ctx.ob('PAIR/total-monotone', fi, st, ok, 'total_time is only ever raised (running maximum)' if ok else
            'total_time is assigned %s inside a loop without being compared with its current value: a later iteration lowers it below the end of a note seen earlier' % vtxt,
            construct='total_time assignment is a running maximum: %s' % norm_text(st)[:80], definite=True)
